@@ -149,6 +149,8 @@ struct Engine : MemView {
         void run_threads();
         void join_others();
         bytes iso_ev, iso_cmd;
+        bool other_on = false; // second parser instance (plan.other)
+        void other_step_hook();
         // livelock detection
         uint64_t last_state_hash = 0;
         bool last_state_valid = false;
@@ -675,6 +677,106 @@ static int m_unlock(void)
 
 } // namespace
 
+// ------------------------------------------------------------------ a second parser instance in the same process
+// An unrelated cat_object with its own descriptor, buffers and io, serviced between the calls of the parser
+// under test (a product with two AT ports). It shares nothing with the first instance except the code of cat.c,
+// so it can only matter if the library keeps state outside the object.
+
+namespace {
+struct Other {
+        std::vector<std::string> names;
+        std::vector<cat_command> cmds[3];
+        cat_command_group groups[3];
+        cat_command_group *gptr[3];
+        cat_descriptor desc;
+        cat_io_interface io;
+        cat_object obj;
+        uint8_t buf[96];
+        int32_t value = 0;
+        cat_variable var;
+        bytes rx;
+        size_t rx_pos = 0;
+        Rng rng;
+        bool on = false;
+};
+Other *OT = nullptr;
+static int o_read(char *ch)
+{
+        if (OT->rx_pos >= OT->rx.size() || OT->rng.below(5) == 0)
+                return 0;
+        *ch = OT->rx[OT->rx_pos++];
+        return 1;
+}
+static int o_write(char ch)
+{
+        (void)ch;
+        return OT->rng.below(7) == 0 ? 0 : 1;
+}
+static cat_return_state o_run(const struct cat_command *c)
+{
+        (void)c;
+        return CAT_RETURN_STATE_OK;
+}
+static void other_setup(Other &o, uint64_t seed)
+{
+        o.rng.reseed(seed);
+        int ng = 2 + (int)o.rng.below(2);
+        size_t total = 0;
+        for (int g = 0; g < ng; g++)
+                total += 1 + o.rng.below(6);
+        o.names.reserve(32);
+        o.rng.reseed(seed);
+        ng = 2 + (int)o.rng.below(2);
+        memset(&o.var, 0, sizeof o.var);
+        o.var.type = CAT_VAR_INT_DEC;
+        o.var.data = &o.value;
+        o.var.data_size = 4;
+        for (int g = 0; g < ng; g++) {
+                size_t n = 1 + o.rng.below(6);
+                o.cmds[g].resize(n);
+                for (size_t k = 0; k < n; k++) {
+                        o.names.push_back(std::string("+O") + (char)('A' + g) + (char)('0' + k));
+                        cat_command &c = o.cmds[g][k];
+                        memset(&c, 0, sizeof c);
+                        c.name = o.names.back().c_str();
+                        c.run = o_run;
+                        c.var = &o.var;
+                        c.var_num = 1;
+                        c.disable = o.rng.below(4) == 0;
+                }
+                memset(&o.groups[g], 0, sizeof o.groups[g]);
+                o.groups[g].cmd = o.cmds[g].data();
+                o.groups[g].cmd_num = n;
+                o.groups[g].disable = o.rng.below(4) == 0;
+                o.gptr[g] = &o.groups[g];
+        }
+        memset(&o.desc, 0, sizeof o.desc);
+        o.desc.cmd_group = o.gptr;
+        o.desc.cmd_group_num = (size_t)ng;
+        o.desc.buf = o.buf;
+        o.desc.buf_size = sizeof o.buf;
+        o.io.read = o_read;
+        o.io.write = o_write;
+        cat_init(&o.obj, &o.desc, &o.io, nullptr);
+        // endless supply of lines for it
+        for (int l = 0; l < 40; l++) {
+                const std::string &nm = o.names[o.rng.below(o.names.size())];
+                static const char *suf[4] = {"", "?", "=5", "=?"};
+                o.rx += "AT" + nm + suf[o.rng.below(4)] + (o.rng.below(2) ? "\r\n" : "\n");
+        }
+        o.on = true;
+}
+static void other_step(Other &o)
+{
+        int n = 1 + (int)o.rng.below(3);
+        for (int i = 0; i < n; i++) {
+                if (o.rx_pos >= o.rx.size())
+                        o.rx_pos = 0;
+                cat_service(&o.obj);
+        }
+}
+} // namespace
+
 // ------------------------------------------------------------------ parked threads (C17)
 
 int Engine::pick_runnable(bool include_self)
@@ -1008,8 +1110,24 @@ void Engine::materialise()
                 objblk = alloc(sizeof(struct cat_object));
         }
         obj = (cat_object *)objblk.p;
+        if (plan.other && !plan.sched) {
+                static Other s_other;
+                s_other = Other();
+                OT = &s_other;
+                other_setup(s_other, plan.fill ^ 0x07e2);
+                other_on = true;
+                for (int i = 0; i < 5; i++)
+                        other_step(s_other); // it is usually in the middle of a line
+        }
         cat_init(obj, &desc, &io, plan.mutex ? &mtx : nullptr);
         ls_protect(true);
+}
+
+void Engine::other_step_hook()
+{
+        bool unprot = false;
+        (void)unprot;
+        other_step(*OT);
 }
 
 uint64_t Engine::mem_hash()
@@ -1067,7 +1185,16 @@ void Engine::end_api(int ret, bool locking)
                 return;
         }
         if (depth != 0) {
-                mon.fail(e_lock_tag(), "returned-holding-lock", fn + " returned while still holding the mutex");
+                // a public call that keeps the mutex has a lasting effect on every later call: also a finding of the
+                // property that says what this particular call does
+                std::string tag = e_lock_tag();
+                if (fn == "cat_hold_exit")
+                        tag += ",C14";
+                else if (fn.find("trigger") != std::string::npos || fn == "cat_is_unsolicited_buffer_full")
+                        tag += ",C13";
+                else if (fn == "cat_is_busy" || fn == "cat_is_hold")
+                        tag += ",C18";
+                mon.fail(tag, "returned-holding-lock", fn + " returned while still holding the mutex");
                 depth = 0;
                 return;
         }
@@ -1254,6 +1381,8 @@ int Engine::service_once()
         log.add((uint64_t)0x800 + (uint64_t)(st & 0xff));
         note_fp(st == CAT_STATUS_OK ? 9 : 10);
         mon.on_service_end(st);
+        if (other_on)
+                other_step_hook();
         check_ro();
         if (iso && !mon.viol.set() && mon.model_ok()) {
                 if (ev_idle0 && mon.st.events_accepted == acc0 && memcmp(iso_ev.data(), evbuf, evcap) != 0)
@@ -1651,6 +1780,7 @@ RunResult run_plan(const Plan &p, const RunOpts &o)
                 }
         if (e.mon.stray)
                 e.mon.classify_stray();
+        e.mon.flush_deferred();
         if (!e.mon.viol.set() && GUARD) {
                 std::string which;
                 if (!e.guards_ok(which)) {
